@@ -208,6 +208,13 @@ class Work:
                         continue
                     if l.strip():
                         body.append(l)
+                # another thread's fault ends the process: the last line may be cut short
+                while body:
+                    try:
+                        json.loads(body[-1])
+                        break
+                    except ValueError:
+                        body.pop()
             outp = "%s.t%d.ndjson" % (base, i)
             with open(outp, "w") as f:
                 f.write(start + "\n")
